@@ -165,12 +165,12 @@ theorem dispatchContent_ret_alive (c : Conn) (n : Nat) {slot : Slot} {l : Label}
 theorem pcm_setConfirm {c : Conn} {n : Nat} (hn : n ≠ 0) {slot : Slot}
     (hslot : lookupN n c.slots = some slot) (l' : Option Label) :
     processChannelMessage c n (.setConfirm l') = (setSlot c n { slot with confL := l' }, none) := by
-  unfold processChannelMessage; simp [hn, hslot]
+  rw [processChannelMessage_setConfirm]; unfold processPlainMessage; simp [hn, hslot]
 
 theorem pcm_setReturn {c : Conn} {n : Nat} (hn : n ≠ 0) {slot : Slot}
     (hslot : lookupN n c.slots = some slot) (l' : Option Label) :
     processChannelMessage c n (.setReturn l') = (setSlot c n { slot with retL := l' }, none) := by
-  unfold processChannelMessage; simp [hn, hslot]
+  rw [processChannelMessage_setReturn]; unfold processPlainMessage; simp [hn, hslot]
 
 theorem lstTxAlive_false (c : Conn) (l : Label)
     (h1 : c.blockedL ≠ some l) (h2 : l ∉ c.blockedFifo)
@@ -280,7 +280,8 @@ theorem registration_then_publish_aux (c : Conn) (n : Nat) (slot : Slot) (l : La
   show (match processChannelMessage _ n (.send bytes) with
     | (c2, some e) => (c2, some e)
     | (c2, none) => drainFifo 1 c2 n).2 = none ∧ _
-  unfold processChannelMessage
+  rw [processChannelMessage_send]
+  unfold processPlainMessage
   dsimp only
   -- third round: the queue is empty, the client is alive
   generalize hc2 : pushOut (setLink c1 slot.lid
